@@ -105,7 +105,69 @@ def ident(records):
     return [(r._desc.name, int(r.n)) for r in records]
 
 
+def run_foreign(case):
+    """Compressed files made by other tools with other parameters than the library's writer uses (large zstd window, multi-member gzip,
+    maximum levels): every way of naming the source still yields the records."""
+    import zstandard
+    from flow.record import RecordStreamWriter
+
+    h = jhash(case)
+    records = [recs.build_record(r) for r in make_records("three", "stream")]
+    buf = io.BytesIO()
+    w = RecordStreamWriter(buf)
+    for r in records:
+        w.write(r)
+    w.flush()
+    plain = buf.getvalue()
+    w.fp = None
+    how = case["how"]
+    if how.startswith("zstd-window"):
+        params = zstandard.ZstdCompressionParameters.from_level(3, window_log=int(how.split("-")[-1]))
+        co = zstandard.ZstdCompressor(compression_params=params).compressobj()
+        raw = co.compress(plain) + co.flush()
+        ext = ".zst"
+    elif how == "zstd-level22":
+        co = zstandard.ZstdCompressor(level=22).compressobj()
+        raw = co.compress(plain) + co.flush()
+        ext = ".zst"
+    elif how == "gzip-members":
+        raw = b"".join(gzip.compress(plain[i:i + 40]) for i in range(0, len(plain), 40))
+        ext = ".gz"
+    elif how == "bz2-level1-streams":
+        raw = bz2.compress(plain[:50], 1) + bz2.compress(plain[50:], 9)
+        ext = ".bz2"
+    else:
+        import lz4.frame
+
+        raw = lz4.frame.compress(plain[:60], block_size=lz4.frame.BLOCKSIZE_MAX4MB, content_checksum=True) + lz4.frame.compress(plain[60:], block_linked=False)
+        ext = ".lz4"
+    d = os.environ["VERIF_SCRATCH"]
+    _n[0] += 1
+    path = os.path.join(d, "c11f-%d-%d.records%s" % (os.getpid(), _n[0], ext))
+    with open(path, "wb") as f:
+        f.write(raw)
+    want = ident(records)
+    viol = []
+    outs = []
+    try:
+        for naming in NAMINGS:
+            got, exc, cls = read_named("stream", naming, path, "", raw)
+            if exc is not None:
+                viol.append(("C11:foreign:%s:read-raises:%s:%s" % (how, naming, type(exc).__name__), case, {"error": repr(exc)[:200]}))
+                outs.append("foreign:raise")
+            elif [(r._desc.name, int(r.n)) for r in got] != want:
+                viol.append(("C11:foreign:%s:read-differs:%s" % (how, naming), case, {"got": len(got), "want": len(want)}))
+                outs.append("foreign:diff")
+            else:
+                outs.append("foreign:ok")
+    finally:
+        os.unlink(path)
+    return {"ev": len(NAMINGS), "h": h, "nt": True, "out": sorted(set(outs)), "viol": viol}
+
+
 def run_case(case):
+    if case["kind"] == "foreign":
+        return run_foreign(case)
     if case["kind"] == "cell":
         return run_cell(case)
     if case["kind"] == "junk":
@@ -202,7 +264,7 @@ def run_cell(case):
     scheme, cext = CONTAINERS[container]
     d = os.environ["VERIF_SCRATCH"]
     _n[0] += 1
-    path = os.path.join(d, "c11-%d-%d%s%s" % (os.getpid(), _n[0], cext, CODECS[codec]))
+    path = os.path.join(d, "c11-%d-%d%s%s%s" % (os.getpid(), _n[0], case.get("stem", ""), cext, CODECS[codec]))
     records = [recs.build_record(r) for r in make_records(seq, container)]
     want = ident(records)
     if container == "csvfile":
@@ -220,6 +282,12 @@ def run_cell(case):
         except Exception as e:  # noqa: BLE001
             viol.append(("C11:write-raises:%s:%s" % (label if container in ("jsonfile", "csvfile") else label, type(e).__name__), case, {"error": repr(e)[:200]}))
             return {"ev": 1, "h": h, "nt": True, "out": "write-raise", "viol": viol}
+        if not os.path.exists(path):
+            viol.append(("C11:written-under-another-name:%s" % label, case, {"asked": os.path.basename(path), "directory_has": sorted(x for x in os.listdir(d) if x.startswith("c11-%d-%d" % (os.getpid(), _n[0])))}))
+            for x in os.listdir(d):
+                if x.startswith("c11-%d-%d" % (os.getpid(), _n[0])):
+                    os.unlink(os.path.join(d, x))
+            return {"ev": 1, "h": h, "nt": True, "out": "other-name", "viol": viol}
         raw = open(path, "rb").read()
         # (1) magic + independent decompressor + independent container decoder
         if codec != "none" and not raw.startswith(MAGIC[codec]):
@@ -468,6 +536,12 @@ def cases(tier):
         yield {"kind": "cell", "codec": codec, "container": container, "seq": seq}
         if seq in ("one", "three"):
             yield {"kind": "cell", "codec": codec, "container": container, "seq": seq, "wopt": "noclobber"}
+        if seq == "three" and container in ("stream", "avro"):
+            # file names with characters that mean something in a URL: the file is created, found and read under exactly that name
+            for stem in (" report%20final", "-a%E9b%2Fc", "-plus+sign&amp", "-caf\u00e9 \u20ac", "-100%"):
+                yield {"kind": "cell", "codec": codec, "container": container, "seq": seq, "stem": stem}
+    for how in ("zstd-window-20", "zstd-window-24", "zstd-window-27", "zstd-level22", "gzip-members", "bz2-level1-streams", "lz4-frames"):
+        yield {"kind": "foreign", "how": how}
     for name in junk_inputs():
         yield {"kind": "junk", "name": name}
     for codec in CODECS:
